@@ -915,6 +915,31 @@ func (k v2key) any(r *Rng) []byte {
 	return k.comp()
 }
 
+// key sets of n entries for the fields keyed by a public key (partial signatures, BIP32 derivations).
+// Entries are told apart by their BYTES: a third of the sets of two or more also hold a second
+// serialization of one of their keys (the 65-byte uncompressed form of P next to the compressed one)
+// or the compressed encoding with the other prefix byte (the point -P): distinct entries, all valid.
+func v2keySet(r *Rng, n int) (l []v2key, enc [][]byte) {
+	for i := 0; i < n; i++ {
+		k := v2newKey(r)
+		l, enc = append(l, k), append(enc, k.any(r))
+	}
+	if n >= 2 && r.Chance(35) {
+		k := l[0]
+		switch r.Intn(3) {
+		case 0:
+			enc[0], enc[1], l[1] = k.comp(), k.pub.SerializeUncompressed(), k
+		case 1:
+			enc[0], enc[1], l[1] = k.pub.SerializeUncompressed(), k.comp(), k
+		default:
+			neg := k.comp()
+			neg[0] ^= 1 // 02 <-> 03: the opposite point; its signatures are made with k all the same (only DER shape is checked)
+			enc[0], enc[1], l[1] = k.comp(), neg, k
+		}
+	}
+	return
+}
+
 // DER signature plus sighash byte: ecdsa.ParseDERSignature tolerates the trailing byte
 // (it trims to the announced length) as long as the total stays <= 72 bytes
 func (k v2key) sig(r *Rng) []byte {
@@ -1189,15 +1214,16 @@ func v2genInField(r *Rng, s *v2sec, pos int) {
 	case 1:
 		v[1] = v2encTxOut(v2genTxOut(r))
 	case 2:
-		for n := r.Pick(1, 1, 2, 3); n > 0; n-- {
-			k := v2newKey(r)
-			s.lists[2] = append(s.lists[2], v2kv{k.any(r), k.sig(r)})
+		ks, enc := v2keySet(r, r.Pick(1, 1, 2, 2, 3))
+		for i := range ks {
+			s.lists[2] = append(s.lists[2], v2kv{enc[i], ks[i].sig(r)})
 		}
 	case 3:
 		v[3] = v2le(uint64(r.Pick(1, 2, 3, 0x81, 0x82, 0x83, 0xffffffff)), 4)
 	case 6:
-		for n := r.Pick(1, 1, 2); n > 0; n-- {
-			s.lists[6] = append(s.lists[6], v2kv{v2newKey(r).any(r), v2genPath(r)})
+		_, enc := v2keySet(r, r.Pick(1, 1, 2, 2))
+		for i := range enc {
+			s.lists[6] = append(s.lists[6], v2kv{enc[i], v2genPath(r)})
 		}
 	case 9, 11:
 		s.lists[pos] = v2genMap(r, 20)
@@ -1275,8 +1301,9 @@ func v2genOutput(r *Rng, fix bool) *v2sec {
 		}
 		switch pos {
 		case 2:
-			for k := r.Pick(1, 1, 2); k > 0; k-- {
-				s.lists[2] = append(s.lists[2], v2kv{v2newKey(r).any(r), v2genPath(r)})
+			_, enc := v2keySet(r, r.Pick(1, 1, 2, 2))
+			for i := range enc {
+				s.lists[2] = append(s.lists[2], v2kv{enc[i], v2genPath(r)})
 			}
 		case 3:
 			v[3] = v2le(1+r.U64()%2100000000000000, 8)
@@ -1617,6 +1644,20 @@ func v2mutate(r *Rng, ser []byte) []byte {
 	var q v2pair
 	if len(ps) > 0 {
 		q = ps[r.Intn(len(ps))]
+	}
+	if r.Chance(8) { // a second entry keyed by another serialization of the same public key (or by the opposite point)
+		for _, c := range ps {
+			if t := c.key[0]; (t == 2 || t == 6) && len(c.key) == 34 && c.sec >= 1 {
+				if pk, err := btcec.ParsePubKey(c.key[1:]); err == nil {
+					k2 := append([]byte{t}, pk.SerializeUncompressed()...)
+					if r.Chance(30) {
+						k2 = v2cp(c.key)
+						k2[1] ^= 1
+					}
+					return splice(c.end, c.end, v2cat(v2vs(k2), v2vs(c.val)))
+				}
+			}
+		}
 	}
 	if r.Chance(8) { // an outpoint index with its top bits set (they are flags in a transaction, plain index bits here)
 		for _, c := range ps {
